@@ -156,9 +156,21 @@ fn outcome_json<T>(res: std::thread::Result<anyhow::Result<Vec<T>>>, enc: &dyn F
     }
 }
 
+/// a run whose outcome equals that of an earlier run of the same case is printed as ["=", index]
+fn back_refs(outs: Vec<Value>) -> Value {
+    let mut res: Vec<Value> = Vec::with_capacity(outs.len());
+    for (i, o) in outs.iter().enumerate() {
+        match outs[..i].iter().position(|x| x == o) {
+            Some(j) => res.push(json!(["=", j])),
+            None => res.push(o.clone()),
+        }
+    }
+    Value::Array(res)
+}
+
 /// every run on a clone of the same collection; element type without Ord: coll 0 and 3 only
 fn run_plain<T: RFBound>(p: &Pipeline, c: &PCollection<T>, runs: &[RunSpec], enc: &dyn Fn(&T) -> Value) -> Value {
-    Value::Array(
+    back_refs(
         runs.iter()
             .map(|&r| {
                 let res = catch_unwind(AssertUnwindSafe(|| -> anyhow::Result<Vec<T>> {
@@ -174,22 +186,37 @@ fn run_plain<T: RFBound>(p: &Pipeline, c: &PCollection<T>, runs: &[RunSpec], enc
     )
 }
 
-/// every run on a clone of the same keyed collection, all four collectors
-fn run_kv<K, X>(p: &Pipeline, c: &PCollection<(K, X)>, runs: &[RunSpec], enc: &dyn Fn(&(K, X)) -> Value) -> Value
+/// every run on a clone of the same keyed collection, all four collectors; `hashed`: the row order
+/// of the plain collectors comes out of a HashMap (canonicalised here by sorting the rows)
+fn run_kv<K, X>(
+    p: &Pipeline,
+    c: &PCollection<(K, X)>,
+    runs: &[RunSpec],
+    hashed: bool,
+    enc: &dyn Fn(&(K, X)) -> Value,
+) -> Value
 where
     K: RFBound + Ord,
     X: RFBound + Ord,
 {
-    Value::Array(
+    back_refs(
         runs.iter()
             .map(|&r| {
                 let res = catch_unwind(AssertUnwindSafe(|| -> anyhow::Result<Vec<(K, X)>> {
+                    let canon = |v: anyhow::Result<Vec<(K, X)>>| {
+                        v.map(|mut rows| {
+                            if hashed {
+                                rows.sort();
+                            }
+                            rows
+                        })
+                    };
                     match (r.coll, r.parts) {
-                        (0, _) => collect(c.clone(), r.parts, r.threads),
+                        (0, _) => canon(collect(c.clone(), r.parts, r.threads)),
                         (1, 0) => c.clone().collect_seq_sorted(),
                         (1, _) => c.clone().collect_par_sorted(Some(r.threads), Some(r.parts)),
                         (2, n) if n > 0 => c.clone().collect_par_sorted_by_key(Some(r.threads), Some(n)),
-                        (3, _) => ckpt_collect::<(K, X)>(p, c.node_id(), r),
+                        (3, _) => canon(ckpt_collect::<(K, X)>(p, c.node_id(), r)),
                         _ => Err(anyhow::anyhow!("no such collector")),
                     }
                 }));
@@ -311,16 +338,16 @@ where
     W: RFBound + Ord + Flat,
 {
     match jk {
-        0 => run_kv(p, &l.join_inner(r), runs, &|(k, (v, w)): &(K, (V, W))| {
+        0 => run_kv(p, &l.join_inner(r), runs, true, &|(k, (v, w)): &(K, (V, W))| {
             krow(k, vec![oflat(Some(v)), oflat(Some(w))])
         }),
-        1 => run_kv(p, &l.join_left(r), runs, &|(k, (v, w)): &(K, (V, Option<W>))| {
+        1 => run_kv(p, &l.join_left(r), runs, true, &|(k, (v, w)): &(K, (V, Option<W>))| {
             krow(k, vec![oflat(Some(v)), oflat(w.as_ref())])
         }),
-        2 => run_kv(p, &l.join_right(r), runs, &|(k, (v, w)): &(K, (Option<V>, W))| {
+        2 => run_kv(p, &l.join_right(r), runs, true, &|(k, (v, w)): &(K, (Option<V>, W))| {
             krow(k, vec![oflat(v.as_ref()), oflat(Some(w))])
         }),
-        _ => run_kv(p, &l.join_full(r), runs, &|(k, (v, w)): &(K, (Option<V>, Option<W>))| {
+        _ => run_kv(p, &l.join_full(r), runs, true, &|(k, (v, w)): &(K, (Option<V>, Option<W>))| {
             krow(k, vec![oflat(v.as_ref()), oflat(w.as_ref())])
         }),
     }
@@ -348,8 +375,8 @@ fn run_tsp(input: &Value) -> Value {
         let st = stamped_k(&p, entry, tsf, &evs);
         match stage {
             0 => run_plain(&p, &st, &runs, &|(k, e): &(i64, Timestamped<i64>)| json!([k, ju(e.ts), one(&e.value)])),
-            1 => run_kv(&p, &st.key_by_window(size, off), &runs, &|(k, v): &((i64, Window), i64)| krow(k, vec![one(v)])),
-            _ => run_kv(&p, &st.group_by_key_and_window(size, off), &runs, &|(k, vs): &((i64, Window), Vec<i64>)| {
+            1 => run_kv(&p, &st.key_by_window(size, off), &runs, false, &|(k, v): &((i64, Window), i64)| krow(k, vec![one(v)])),
+            _ => run_kv(&p, &st.group_by_key_and_window(size, off), &runs, true, &|(k, vs): &((i64, Window), Vec<i64>)| {
                 krow(k, vec![json!(vs)])
             }),
         }
@@ -357,8 +384,8 @@ fn run_tsp(input: &Value) -> Value {
         let st = stamped_u(&p, entry, tsf, &evs);
         match stage {
             0 => run_plain(&p, &st, &runs, &|e: &Timestamped<i64>| json!([0, ju(e.ts), one(&e.value)])),
-            1 => run_kv(&p, &st.key_by_window(size, off), &runs, &|(k, v): &(Window, i64)| krow(k, vec![one(v)])),
-            _ => run_kv(&p, &st.group_by_window(size, off), &runs, &|(k, vs): &(Window, Vec<i64>)| {
+            1 => run_kv(&p, &st.key_by_window(size, off), &runs, false, &|(k, v): &(Window, i64)| krow(k, vec![one(v)])),
+            _ => run_kv(&p, &st.group_by_window(size, off), &runs, true, &|(k, vs): &(Window, Vec<i64>)| {
                 krow(k, vec![json!(vs)])
             }),
         }
@@ -705,8 +732,387 @@ fn interesting_u64(rng: &mut SplitMix64) -> u64 {
     }
 }
 
+// ===================================================================================
+// generators for the kinds tsp / wjoin / gbig / wnew
+// ===================================================================================
+fn jruns(runs: &[(usize, u64)]) -> Value {
+    Value::Array(runs.iter().map(|&(p, c)| json!([p, 4, c])).collect())
+}
+fn tsf_apply(sel: u64, c: u64, x: u64) -> u64 {
+    match sel {
+        0 => x,
+        1 => c,
+        2 => x.wrapping_add(c),
+        _ => u64::MAX - x,
+    }
+}
+/// v := index (entry >= 1 looks timestamps / keys up by value)
+fn reindex(evs: &[Ev]) -> Vec<Ev> {
+    evs.iter().enumerate().map(|(i, e)| (e.0, e.1, i as i64)).collect()
+}
+/// number of distinct (key,) windows by the floor-division reference, None if a window is not representable
+fn ref_windows(evs: &[Ev], keyed: bool, size: u64, off: u64, sel: u64, c: u64, entry: u64) -> Option<Vec<(i64, i128)>> {
+    if size == 0 {
+        return None;
+    }
+    let mut ws = Vec::new();
+    for e in evs {
+        let ts = if entry == 1 { tsf_apply(sel, c, e.1) } else { e.1 };
+        let s = floor_start(ts, size, off);
+        if s < 0 || s + size as i128 >= (1i128 << 64) {
+            return None;
+        }
+        ws.push((if keyed { e.0 } else { 0 }, s));
+    }
+    ws.sort();
+    ws.dedup();
+    Some(ws)
+}
+#[allow(clippy::too_many_arguments)]
+fn emit_tsp(
+    em: &mut Emitter,
+    entry: u64,
+    tsf: (u64, u64),
+    keyed: bool,
+    size: u64,
+    off: u64,
+    evs: &[Ev],
+    stage: u64,
+    runs: &[(usize, u64)],
+    tag: &str,
+) {
+    let evs: Vec<Ev> = if entry == 0 { evs.to_vec() } else { reindex(evs) };
+    let tsf = if entry == 1 { tsf } else { (0, 0) };
+    // stage 0 has no Ord: plain and checkpointing collectors only; by-key sorting needs partitions
+    let runs: Vec<(usize, u64)> = runs
+        .iter()
+        .map(|&(p, c)| {
+            let c = if stage == 0 && (c == 1 || c == 2) { 0 } else { c };
+            if c == 2 && p == 0 { (2, 2) } else { (p, c) }
+        })
+        .collect();
+    // non-trivial: events are really stamped through an entry point / collector beyond the old kinds,
+    // >= 2 events, and (for the window stages) every window representable and >= 2 of them
+    let nt = evs.len() >= 2
+        && (entry >= 1 || runs.len() >= 2 || runs.iter().any(|r| r.1 != 0))
+        && (stage == 0
+            || ref_windows(&evs, keyed, size, off, tsf.0, tsf.1, entry).is_some_and(|w| w.len() >= 2));
+    em.case(
+        "tsp",
+        json!([entry, [tsf.0, ju(tsf.1)], keyed, ju(size), ju(off), jevents(&evs), stage, jruns(&runs)]),
+        nt,
+        &[tag],
+    );
+}
+
+#[derive(Clone)]
+enum SideSpec {
+    Tab(Vec<(i64, u64, u64, i64)>),
+    Win { stage: u64, entry: u64, size: u64, off: u64, evs: Vec<Ev> },
+}
+fn jside(s: &SideSpec) -> Value {
+    match s {
+        SideSpec::Tab(rows) => {
+            json!([0, rows.iter().map(|(k, s, e, v)| json!([k, ju(*s), ju(*e), v])).collect::<Vec<_>>()])
+        }
+        SideSpec::Win { stage, entry, size, off, evs } => {
+            let evs = if *entry == 0 { evs.clone() } else { reindex(evs) };
+            json!([stage, entry, [0, 0], ju(*size), ju(*off), jevents(&evs)])
+        }
+    }
+}
+/// reference keys (k, start, end) of one side, None if some window is not representable
+fn side_keys(s: &SideSpec, keyed: bool) -> Option<Vec<(i64, i128, i128)>> {
+    match s {
+        SideSpec::Tab(rows) => {
+            Some(rows.iter().map(|r| (if keyed { r.0 } else { 0 }, r.1 as i128, r.2 as i128)).collect())
+        }
+        SideSpec::Win { size, off, evs, entry, .. } => {
+            ref_windows(evs, keyed, *size, *off, 0, 0, *entry)
+                .map(|ws| ws.into_iter().map(|(k, s)| (k, s, s + *size as i128)).collect())
+        }
+    }
+}
+fn emit_wjoin(em: &mut Emitter, jk: u64, keyed: bool, l: &SideSpec, r: &SideSpec, xp: bool, runs: &[(usize, u64)], tag: &str) {
+    let runs: Vec<(usize, u64)> = runs.iter().map(|&(p, c)| if c == 2 && p == 0 { (2, 2) } else { (p, c) }).collect();
+    // non-trivial: a window transform on at least one side, both sides non-empty with representable
+    // windows, at least one key on both sides and one on one side only, a parallel run with >= 2 partitions
+    let win = |s: &SideSpec| matches!(s, SideSpec::Win { .. });
+    let nt = match (side_keys(l, keyed), side_keys(r, keyed)) {
+        (Some(a), Some(b)) => {
+            (win(l) || win(r))
+                && a.iter().any(|k| b.contains(k))
+                && (a.iter().any(|k| !b.contains(k)) || b.iter().any(|k| !a.contains(k)))
+                && runs.iter().any(|r| r.0 >= 2)
+        }
+        _ => false,
+    };
+    em.case("wjoin", json!([jk, keyed, jside(l), jside(r), u64::from(xp), jruns(&runs)]), nt, &[tag]);
+}
+
+#[allow(clippy::too_many_arguments)]
+fn big_case(via: u64, keyed: bool, size: u64, off: u64, n: u64, t0: u64, a: u64, m: u64, nk: u64, parts: usize, wb: u64, nt: u64) -> Value {
+    json!([via, keyed, ju(size), ju(off), n, ju(t0), ju(a), ju(m), nk, parts, 4, ju(wb), nt])
+}
+/// the big cases of one run, in the order they are interleaved with the other families
+fn big_cases(seed: u64, thorough: bool) -> Vec<Value> {
+    let mut rng = SplitMix64::new(SplitMix64::new(seed).next_u64() ^ 0xB16);
+    let mut out = Vec::new();
+    // every power of two (and its neighbours) up to 65536 events; 4..40 groups; the window table of
+    // the join variants starts one window early and ends one late
+    let mut ns: Vec<u64> = vec![15, 16, 17, 20, 31, 32, 33, 63, 64, 65, 127, 128, 129, 255, 256, 257, 511, 512, 513, 1023, 1024, 1025, 2048, 4095, 4096, 4097, 8192, 16384];
+    if thorough {
+        ns.extend([32767, 32768, 32769, 65535, 65537, 131072]);
+    }
+    let part_choices: [usize; 10] = [0, 1, 2, 3, 4, 7, 16, 64, 256, 1024];
+    for (i, &n) in ns.iter().enumerate() {
+        let via = (i as u64 + seed) % 5;
+        let keyed = rng.chance(1, 2);
+        let size = *rng.pick(&[1u64, 7, 10, 1000, 1 << 32]);
+        let off = *rng.pick(&[0u64, 3, size, size + 1, 5 * size + 2]);
+        let windows = 2 + rng.below(9);
+        let nk = if keyed { 1 + rng.below(4) } else { 1 };
+        let m = windows * size;
+        // a stride coprime to m spreads every window over the whole input (late events everywhere)
+        let a = *rng.pick(&[1u64, 7, 11, 13, 10_007]);
+        let t0 = off % size + size * rng.below(3) + if rng.chance(1, 6) { 1 << 63 } else { 0 };
+        let parts = part_choices[(i + seed as usize) % part_choices.len()];
+        let wb = t0 - t0.wrapping_sub(off % size) % size;
+        let wb = if wb >= size + off % size { wb - size } else { wb };
+        out.push(big_case(via, keyed, size, off, n, t0, a, m, nk, parts, wb, windows + 2));
+    }
+    // 65536 events in every run (one variant per seed), few groups
+    {
+        let via = seed % 5;
+        out.push(big_case(via, seed % 2 == 1, 10, 3, 65536, 3, 7, 60, 2, [16usize, 4, 64, 2, 7][(seed % 5) as usize], 3, 8));
+    }
+    // many groups (one event per window and more): 64 .. 1024 windows
+    for (j, &(n, groups)) in [(256u64, 64u64), (512, 128), (1024, 256), (2048, 512), (2048, 1024)].iter().enumerate() {
+        let via = (j as u64 + seed) % 5;
+        let size = *rng.pick(&[1u64, 3, 10]);
+        let parts = *rng.pick(&[2usize, 4, 7, 16, 64]);
+        out.push(big_case(via, false, size, 0, n, 0, *rng.pick(&[1u64, 3, 7]), groups * size, 1, parts, 0, groups.min(40)));
+    }
+    out
+}
+fn emit_big(em: &mut Emitter, c: Value) {
+    let n = c[4].as_u64().unwrap();
+    em.case("gbig", c, n >= 16, &["big"]);
+}
+
+fn generate_new(seed: u64, thorough: bool, em: &mut Emitter) {
+    let mut rng = SplitMix64::new(SplitMix64::new(seed).next_u64() ^ 0x7513);
+
+    // N1. Window::new on small and extreme (start, end) pairs (end < start: the debug assertion)
+    let ext: [u64; 8] = [0, 1, 5, (1 << 63) - 1, 1 << 63, (1 << 63) + 1, M - 1, M];
+    for &a in &ext {
+        for &b in &ext {
+            em.case("wnew", json!([ju(a), ju(b)]), true, &["window-new"]);
+        }
+    }
+
+    // N2. every entry point x keyed/unkeyed x every stage around the anchors 0, 2^31, 2^32, 2^53,
+    //     2^62, 2^63 (i64::MAX + 1), near the last windows; 7 consecutive timestamps in a
+    //     scrambled (late events) order; sequential, parallel and a checkpointing run
+    let anchors: [u64; 8] = [0, 1 << 31, 1 << 32, 1 << 53, 1 << 62, (1 << 63) - 2, 1 << 63, M - 5000];
+    for &anchor in &anchors {
+        for size in [1u64, 7, 1000] {
+            if size == 7 && anchor != 0 && anchor != 1 << 63 {
+                continue;
+            }
+            for off in [0u64, size, 3] {
+                let lo = anchor.saturating_sub(3).max(off % size);
+                let evs: Vec<Ev> = (0..7u64)
+                    .map(|i| (i * 3) % 7)
+                    .map(|d| ((d % 2) as i64, lo + d, (d % 3) as i64))
+                    .collect();
+                for entry in 0..3u64 {
+                    for keyed in [false, true] {
+                        for stage in 0..3u64 {
+                            let pick = (anchor >> 3) as usize + size as usize + off as usize + entry as usize + stage as usize;
+                            let runs: Vec<(usize, u64)> = match pick % 4 {
+                                0 => vec![(0, 0), (3, 0)],
+                                1 => vec![(2, 0), (0, 1)],
+                                2 => vec![(0, 0), (4, 2), (2, 3)],
+                                _ => vec![(7, 0), (0, 3)],
+                            };
+                            emit_tsp(em, entry, (0, 0), keyed, size, off, &evs, stage, &runs, "entry-anchors");
+                        }
+                    }
+                }
+            }
+        }
+    }
+
+    // N3. the ts_fn of attach_timestamps: constant, shifted (wrapping past 2^64), reversed
+    for (sel, c) in [(1u64, 0u64), (1, 25), (1, 1 << 63), (2, 5), (2, 1 << 63), (2, M - 10), (3, 0)] {
+        for size in [1u64, 10, 1 << 62] {
+            for off in [0u64, 3] {
+                let evs: Vec<Ev> = (0..9u64)
+                    .map(|i| {
+                        let base = if sel == 3 { M - 40 * size.min(1000) } else { off % size };
+                        ((i % 3) as i64, base + (i * 5) % 9 * size.min(1000) / 2, 0)
+                    })
+                    .collect();
+                for keyed in [false, true] {
+                    for stage in 0..3u64 {
+                        emit_tsp(em, 1, (sel, c), keyed, size, off, &evs, stage, &[(0, 0), (3, 0), (2, 1)], "ts-fn");
+                    }
+                }
+            }
+        }
+    }
+
+    // N4. every collector x every partition count on ONE collection (repeated collects of clones):
+    //     structured events, one per timestamp over 3 windows in a scrambled order
+    let all_runs: Vec<(usize, u64)> = vec![
+        (0, 0), (0, 1), (1, 0), (2, 0), (2, 1), (2, 2), (3, 2), (4, 1), (7, 2), (16, 0), (16, 2), (0, 3), (3, 3), (64, 1),
+    ];
+    for size in 1..=(if thorough { 6u64 } else { 4 }) {
+        for off in [0u64, 1, size, 2 * size + 1] {
+            let nev = 3 * size + 3;
+            let evs: Vec<Ev> = (0..nev)
+                .map(|i| (i * 5) % nev.max(1))
+                .map(|t| ((t % 2) as i64, off % size + t, (t % 3) as i64))
+                .collect();
+            for entry in 0..3u64 {
+                for keyed in [false, true] {
+                    for stage in 1..3u64 {
+                        emit_tsp(em, entry, (0, 0), keyed, size, off, &evs, stage, &all_runs, "collectors");
+                    }
+                }
+            }
+        }
+    }
+
+    // N5. seeded random: entry point, ts_fn, stage, 1..3 runs with random collectors
+    let n = if thorough { 8_000 } else { 900 };
+    for _ in 0..n {
+        let huge = rng.chance(1, 8);
+        let size = if rng.chance(1, 60) { 0 } else if huge { interesting_u64(&mut rng).max(1) } else { 1 + rng.below(12) };
+        let off = if huge { interesting_u64(&mut rng) } else { rng.below(30) };
+        let want_known = rng.chance(1, 12);
+        let base = if size == 0 || want_known { 0 } else { off % size };
+        let nev = rng.below(14) as usize;
+        let span = if huge { interesting_u64(&mut rng).max(1) } else { 1 + rng.below(60) };
+        let evs: Vec<Ev> = (0..nev)
+            .map(|_| {
+                let t = if huge && rng.chance(1, 2) {
+                    match rng.below(3) {
+                        0 => M - size.min(M / 2) - rng.below(span.min(1 << 20)),
+                        1 => (1u64 << 63).wrapping_add(rng.below(9)).wrapping_sub(4).max(base),
+                        _ => base,
+                    }
+                } else if rng.chance(1, 10) {
+                    base // the very first representable timestamp (0 when off % size == 0)
+                } else {
+                    base.saturating_add(rng.below(span))
+                };
+                (rng.range(0, 2), t, rng.range(0, 4))
+            })
+            .collect();
+        let entry = rng.below(3);
+        let tsf = match rng.below(6) {
+            0 => (1, interesting_u64(&mut rng)),
+            1 => (2, rng.below(20)),
+            2 => (3, 0),
+            _ => (0, 0),
+        };
+        let stage = rng.below(3);
+        let nruns = 1 + rng.below(3) as usize;
+        let runs: Vec<(usize, u64)> = (0..nruns)
+            .map(|_| {
+                let p = *rng.pick(&[0usize, 0, 1, 2, 2, 3, 4, 5, 8, 13, 32]);
+                let c = if rng.chance(1, 12) { 3 } else { rng.below(3) };
+                (p, c)
+            })
+            .collect();
+        emit_tsp(em, entry, tsf, rng.chance(1, 2), size, off, &evs, stage, &runs, "entry-random");
+    }
+
+    // N6. window transforms feeding joins: all four kinds, the window side left / right / both,
+    //     key_by_window and the groupings, both modes; every window's events are spread over the
+    //     whole (contiguously split) source, the table has matching windows (twice), a window with
+    //     the same start and another end, and windows without events
+    let join_runs: Vec<(usize, u64)> = vec![(0, 0), (2, 0), (4, 0), (7, 2), (3, 1), (16, 0), (4, 3)];
+    for (size, off) in [(10u64, 3u64), (4, 0), (1, 0), (5, 12)] {
+        let m = off % size;
+        let evs: Vec<Ev> = (0..24u64).map(|i| ((i % 3) as i64, m + (i * 7) % (4 * size), i as i64)).collect();
+        let evs2: Vec<Ev> = (0..10u64).map(|i| ((i % 2) as i64, m + size + (i * 3) % (4 * size), 100 + i as i64)).collect();
+        let mut tab: Vec<(i64, u64, u64, i64)> = Vec::new();
+        for j in 0..6u64 {
+            for k in 0..2i64 {
+                tab.push((k, m + j * size, m + j * size + size, (10 * j) as i64 + k));
+            }
+        }
+        tab.push((0, m + size, m + 2 * size, 77)); // a second row for one window
+        tab.push((0, m, m + 2 * size, 88)); // same start, other end
+        tab.push((1, m + size, m + size, 99)); // empty interval with a window's start
+        for jk in 0..4u64 {
+            for keyed in [false, true] {
+                for stage in 1..3u64 {
+                    let entry = (jk + stage + u64::from(keyed)) % 3;
+                    let w = SideSpec::Win { stage, entry, size, off, evs: evs.clone() };
+                    let w2 = SideSpec::Win { stage: 3 - stage, entry: (entry + 1) % 3, size, off, evs: evs2.clone() };
+                    let w3 = SideSpec::Win { stage, entry: 0, size: 2 * size, off, evs: evs2.clone() };
+                    let t = SideSpec::Tab(tab.clone());
+                    emit_wjoin(em, jk, keyed, &w, &t, false, &join_runs, "join-structured");
+                    emit_wjoin(em, jk, keyed, &t, &w, stage == 1, &join_runs, "join-structured");
+                    emit_wjoin(em, jk, keyed, &w, &w2, false, &join_runs, "join-structured");
+                    emit_wjoin(em, jk, keyed, &w3, &w, keyed, &join_runs, "join-structured");
+                }
+            }
+        }
+    }
+
+    // N7. seeded random joins
+    let n = if thorough { 6_000 } else { 700 };
+    for _ in 0..n {
+        let size = if rng.chance(1, 80) { 0 } else { 1 + rng.below(8) };
+        let off = rng.below(20);
+        let keyed = rng.chance(1, 2);
+        let base = if size == 0 || rng.chance(1, 15) { 0 } else { off % size };
+        let span = 1 + rng.below(5 * size.max(1));
+        let side = |rng: &mut SplitMix64, force_win: bool| -> SideSpec {
+            if force_win || rng.chance(2, 3) {
+                let nev = rng.below(16) as usize;
+                let evs: Vec<Ev> =
+                    (0..nev).map(|_| (rng.range(0, 2), base + rng.below(span), rng.range(0, 4))).collect();
+                let sz = if rng.chance(1, 8) { size * 2 } else { size };
+                SideSpec::Win { stage: 1 + rng.below(2), entry: rng.below(3), size: sz, off, evs }
+            } else {
+                let nrows = rng.below(8) as usize;
+                let sz = size.max(1);
+                let rows = (0..nrows)
+                    .map(|_| {
+                        let s = base - base % sz + off % sz + sz * rng.below(6);
+                        let e = if rng.chance(1, 6) { s + rng.below(2 * sz + 1) } else { s + sz };
+                        (rng.range(0, 2), s, e, rng.range(0, 50))
+                    })
+                    .collect();
+                SideSpec::Tab(rows)
+            }
+        };
+        let wl = rng.chance(1, 2);
+        let l = side(&mut rng, wl);
+        let r = side(&mut rng, !wl);
+        let nruns = 1 + rng.below(3) as usize;
+        let runs: Vec<(usize, u64)> = (0..nruns)
+            .map(|_| {
+                let p = *rng.pick(&[0usize, 1, 2, 2, 3, 4, 4, 5, 8, 13]);
+                let c = if rng.chance(1, 15) { 3 } else { rng.below(3) };
+                (p, c)
+            })
+            .collect();
+        emit_wjoin(em, rng.below(4), keyed, &l, &r, rng.chance(1, 6), &runs, "join-random");
+    }
+}
+
 fn generate(seed: u64, tier: Tier, em: &mut Emitter) {
     let thorough = tier == Tier::Thorough;
+    // big formula-generated cases are interleaved with the cheap families so that the (contiguous)
+    // Coq shards stay balanced
+    let mut bigs = big_cases(seed, thorough).into_iter();
 
     // 1. exhaustive small grid: size, off in 0..=G, ts in 0..=G (one row per (size, off))
     let g: u64 = if thorough { 96 } else { 40 };
@@ -744,7 +1150,11 @@ fn generate(seed: u64, tier: Tier, em: &mut Emitter) {
     // seed is scrambled first (one output of the generator) to decorrelate neighbouring seeds
     let mut rng = SplitMix64::new(SplitMix64::new(seed).next_u64() ^ 0xC13);
     let n = if thorough { 40_000 } else { 3_000 };
-    for _ in 0..n {
+    let big_every = (n / 40).max(1);
+    for it in 0..n {
+        if it % big_every == 0 && let Some(c) = bigs.next() {
+            emit_big(em, c);
+        }
         let size = if rng.chance(1, 40) { 0 } else { interesting_u64(&mut rng).max(1) };
         let off = interesting_u64(&mut rng);
         let ts = match rng.below(6) {
@@ -870,6 +1280,12 @@ fn generate(seed: u64, tier: Tier, em: &mut Emitter) {
         let kind = if rng.chance(1, 4) { "kbw" } else { "gbw" };
         emit_group(em, kind, keyed, size, off, &evs, parts, "random");
     }
+    for c in bigs {
+        emit_big(em, c);
+    }
+
+    // 6. entry points of helpers/timestamped.rs, Window::new, collectors, joins
+    generate_new(seed, thorough, em);
 }
 
 fn main() {
